@@ -173,6 +173,18 @@ var descListTypesTemplate = template.Must(template.New("").Parse(`
 					if _, ok := p.byText[d.TextName()]; !ok {
 						p.byText[d.TextName()] = d
 					}
+					{{- end}}
+					{{- if .NumberExpr}}
+					if _, ok := p.byNum[d.Number()]; !ok {
+						p.byNum[d.Number()] = d
+					}
+					{{- end}}
+				}
+				{{- if (eq . "Field")}}
+				// The lower-cased aliases of group-like fields must not
+				// shadow the exact name of any field.
+				for i := range p.List {
+					d := &p.List[i]
 					if isGroupLike(d) {
 						lowerJSONName := strings.ToLower(d.JSONName())
 						if _, ok := p.byJSON[lowerJSONName]; !ok {
@@ -183,13 +195,8 @@ var descListTypesTemplate = template.Must(template.New("").Parse(`
 							p.byText[lowerTextName] = d
 						}
 					}
-					{{- end}}
-					{{- if .NumberExpr}}
-					if _, ok := p.byNum[d.Number()]; !ok {
-						p.byNum[d.Number()] = d
-					}
-					{{- end}}
 				}
+				{{- end}}
 			}
 		})
 		return p
